@@ -2138,6 +2138,10 @@ func c13Progress(w *World, r *Result) {
 					r.Triv(rule, key, w.Pos(firstPosOf(header)), "counting loop with an explicit bound")
 					continue
 				}
+				if why, ok := worklistLoop(header); ok {
+					r.Ok(rule, key, w.Pos(firstPosOf(header)), why)
+					continue
+				}
 				if passes(fn, header, header) {
 					r.Ok(rule, key, w.Pos(firstPosOf(header)), "every path back to the loop head consumes a token (or calls a function that does on all success paths)")
 				} else if reason, ok := reviewedLoop(fn); ok {
